@@ -47,7 +47,23 @@ class Lin:
         return " + ".join(parts)
 
 
-_COND_RES = [None]
+import threading as _threading
+
+
+class _ThreadCell:
+    """a one-slot list whose content is per thread (the thorough tier analyses several scratch
+    copies concurrently)"""
+    def __init__(self):
+        self._l = _threading.local()
+
+    def __getitem__(self, i):
+        return getattr(self._l, "v", None)
+
+    def __setitem__(self, i, v):
+        self._l.v = v
+
+
+_COND_RES = _ThreadCell()
 
 
 def linearize(e, subst=None, ren=None):
